@@ -2,6 +2,7 @@ import Pyunicorn.Lemmas.Geo
 import Pyunicorn.Lemmas.GeoError
 import Pyunicorn.Lemmas.GeoRound
 import Pyunicorn.Lemmas.GeoRoundAng
+import Pyunicorn.Lemmas.GeoRoundNN
 import Pyunicorn.Lemmas.GeoHist
 import Pyunicorn.Generated.StructC12
 import Pyunicorn.Model.GeoArea
@@ -105,6 +106,29 @@ theorem euclKernel_apply (sqrt : α → α) (x : Nat → Nat → α) (d N a b : 
     (ha : a < N) (hb : b < N) :
     euclKernel sqrt x d N a b = sqrt (sumsq x d (max a b) (min a b)) := by
   simp [euclKernel, fillSym_apply, ha, hb]
+
+/-- *structural* (round 5) — reading the `N × N` block out of the filled matrix gives, cell by
+cell, the loop body at `(max a b, min a b)`: the closed-form read-out `symBlock` the driver uses
+for large grids is the fill -/
+theorem fillSym_block {β : Type} (N : Nat) (f : Nat → Nat → β) (M : Nat → Nat → β) :
+    toLists N (fillSym N f M) = symBlock N f := by
+  unfold toLists symBlock
+  apply List.map_congr_left
+  intro a ha
+  apply List.map_congr_left
+  intro b hb
+  rw [fillSym_apply, if_pos ⟨List.mem_range.1 ha, List.mem_range.1 hb⟩]
+
+/-- the angular kernel's block, as answered by the driver for `N > 16` -/
+theorem cosAngKernel_block (sl cl sn cn : Nat → α) (N : Nat) :
+    toLists N (cosAngKernel sl cl sn cn N)
+      = symBlock N (fun i j => clamp (cosExpr sl cl sn cn i j)) :=
+  fillSym_block N _ _
+
+/-- the Euclidean kernel's block -/
+theorem euclKernel_block (sqrt : α → α) (x : Nat → Nat → α) (d N : Nat) :
+    toLists N (euclKernel sqrt x d N) = symBlock N (fun i j => sqrt (sumsq x d i j)) :=
+  fillSym_block N _ _
 
 /-- *structural* — `Grid.euclidean_distance()` is exactly symmetric. -/
 theorem euclideanDistance_symm (T : Trig α) (x : Nat → Nat → α) (d N a b : Nat) :
@@ -1710,6 +1734,498 @@ example : geoRectGrid [0, 5] [1, 2, (3 : Int)]
     = some ([some 0, some 0, some 0, some 5, some 5, some 5],
             [some 1, some 2, some 3, some 1, some 2, some 3]) := by decide
 
+/-! ## round 5 — the nearest-node lookups and the radian conversion in rounded arithmetic
+
+Rounds 1–4 proved the lookup clause ("returns a node at minimal distance") for exact
+arithmetic and left the floating point evaluation to the oracle (with ad-hoc tolerances).
+Here the *same* models `gridNodeNumber` / `geoNodeNumber` are instantiated with operations
+that round (`rGridNodeNumber_eq_model`, `rGeoNodeNumber_eq_model`) and the clause is proved
+under the standard model: the returned node is nearest up to the factor / the slack that
+the roundings can produce — for every grid, every dimension, every query point. -/
+
+/-- **`Grid.node_number` in rounded arithmetic**: every `-`, `*`, `+` rounded with relative
+error `u`, a square root of relative error `w`, exact comparisons in `argmin`.  The node
+returned is nearest up to the factor `(1+w)√((1+u)^(d+3)) / ((1-w)√((1-u)^(d+3)))`. -/
+theorem gridNodeNumber_rounded {rnd : ℝ → ℝ} {u w : ℝ} (h : StdRound rnd u) (sq : ℝ → ℝ)
+    (hw0 : 0 ≤ w) (hw1 : w ≤ 1) (hsq : ∀ v, 0 ≤ v → |sq v - √v| ≤ w * √v)
+    (x : Nat → Nat → ℝ) (q : Nat → ℝ) (d N k : Nat)
+    (hk : rGridNodeNumber rnd sq x q d N = some k) :
+    k < N ∧ ∀ m < N, (1 - w) * √((1 - u) ^ (d + 3)) * dist (pt x d k) (qpt q d)
+      ≤ (1 + w) * √((1 + u) ^ (d + 3)) * dist (pt x d m) (qpt q d) := by
+  obtain ⟨v, hv, hmin, -⟩ := argminFirst_spec _ k hk
+  have hkN : k < N := by
+    by_contra hk'
+    rw [List.getElem?_eq_none (by simpa using Nat.le_of_not_lt hk')] at hv
+    cases hv
+  rw [List.getElem?_map, List.getElem?_range hkN] at hv
+  simp only [Option.map_some, Option.some.injEq] at hv
+  subst hv
+  refine ⟨hkN, fun m hm => ?_⟩
+  have h1 := (rqdist_bounds h sq hw0 hw1 hsq x q d k).1
+  have h2 := (rqdist_bounds h sq hw0 hw1 hsq x q d m).2
+  have h3 := hmin _ (List.mem_map.2 ⟨m, List.mem_range.2 hm, rfl⟩)
+  rw [qsumsq_eq] at h1 h2
+  linarith
+
+/-- the lookup fails only for a grid without nodes, also in rounded arithmetic -/
+theorem gridNodeNumber_rounded_ne_none (rnd sq : ℝ → ℝ) (x : Nat → Nat → ℝ) (q : Nat → ℝ)
+    (d N : Nat) (hN : 0 < N) : rGridNodeNumber rnd sq x q d N ≠ none := by
+  unfold rGridNodeNumber
+  rw [Ne, argminFirst_eq_none_iff]
+  intro h
+  have := congrArg List.length h
+  simp at this
+  omega
+
+/-- **rounding can change the answer only between near-ties**: a node that is closer than
+every other node by more than the rounding factor is the node returned -/
+theorem gridNodeNumber_rounded_separated {rnd : ℝ → ℝ} {u w : ℝ} (h : StdRound rnd u) (sq : ℝ → ℝ)
+    (hw0 : 0 ≤ w) (hw1 : w ≤ 1) (hsq : ∀ v, 0 ≤ v → |sq v - √v| ≤ w * √v)
+    (x : Nat → Nat → ℝ) (q : Nat → ℝ) (d N m₀ : Nat) (hm₀ : m₀ < N)
+    (hsep : ∀ m < N, m ≠ m₀ → (1 + w) * √((1 + u) ^ (d + 3)) * dist (pt x d m₀) (qpt q d)
+      < (1 - w) * √((1 - u) ^ (d + 3)) * dist (pt x d m) (qpt q d)) :
+    rGridNodeNumber rnd sq x q d N = some m₀ := by
+  cases hr : rGridNodeNumber rnd sq x q d N with
+  | none => exact absurd hr (gridNodeNumber_rounded_ne_none rnd sq x q d N (by omega))
+  | some k =>
+    obtain ⟨hk, hmin⟩ := gridNodeNumber_rounded h sq hw0 hw1 hsq x q d N k hr
+    by_cases e : k = m₀
+    · rw [e]
+    · exact absurd (hmin m₀ hm₀) (not_le.2 (hsep k hk e))
+
+/-- **float64 query points** (`u = 2⁻⁵³`, `np.sqrt` within one ulp, at most 6 dimensions):
+the node returned is nearest up to the relative factor `(1 + 2⁻⁴⁹) / (1 - 2⁻⁴⁹)` -/
+theorem gridNodeNumber_rounded_float64 {rnd : ℝ → ℝ} (h : StdRound rnd (2⁻¹ ^ 53)) (sq : ℝ → ℝ)
+    (hsq : ∀ v, 0 ≤ v → |sq v - √v| ≤ 2⁻¹ ^ 52 * √v)
+    (x : Nat → Nat → ℝ) (q : Nat → ℝ) (d N k : Nat) (hd : d ≤ 6)
+    (hk : rGridNodeNumber rnd sq x q d N = some k) :
+    k < N ∧ ∀ m < N, (1 - 2⁻¹ ^ 49) * dist (pt x d k) (qpt q d)
+      ≤ (1 + 2⁻¹ ^ 49) * dist (pt x d m) (qpt q d) := by
+  obtain ⟨hkN, hmin⟩ := gridNodeNumber_rounded h sq (by norm_num) (by norm_num) hsq x q d N k hk
+  refine ⟨hkN, fun m hm => ?_⟩
+  have hf := float64_factors d hd
+  have h1 := mul_le_mul_of_nonneg_right hf.1 (dist_nonneg (x := pt x d k) (y := qpt q d))
+  have h2 := mul_le_mul_of_nonneg_right hf.2 (dist_nonneg (x := pt x d m) (y := qpt q d))
+  linarith [hmin m hm]
+
+/-- **float32 query arrays** (`u = 2⁻²⁴`, square root within one ulp, at most 6 dimensions):
+nearest up to `(1 + 2⁻²⁰) / (1 - 2⁻²⁰)` -/
+theorem gridNodeNumber_rounded_float32 {rnd : ℝ → ℝ} (h : StdRound rnd (2⁻¹ ^ 24)) (sq : ℝ → ℝ)
+    (hsq : ∀ v, 0 ≤ v → |sq v - √v| ≤ 2⁻¹ ^ 23 * √v)
+    (x : Nat → Nat → ℝ) (q : Nat → ℝ) (d N k : Nat) (hd : d ≤ 6)
+    (hk : rGridNodeNumber rnd sq x q d N = some k) :
+    k < N ∧ ∀ m < N, (1 - 2⁻¹ ^ 20) * dist (pt x d k) (qpt q d)
+      ≤ (1 + 2⁻¹ ^ 20) * dist (pt x d m) (qpt q d) := by
+  obtain ⟨hkN, hmin⟩ := gridNodeNumber_rounded h sq (by norm_num) (by norm_num) hsq x q d N k hk
+  refine ⟨hkN, fun m hm => ?_⟩
+  have hf := float32_factors d hd
+  have h1 := mul_le_mul_of_nonneg_right hf.1 (dist_nonneg (x := pt x d k) (y := qpt q d))
+  have h2 := mul_le_mul_of_nonneg_right hf.2 (dist_nonneg (x := pt x d m) (y := qpt q d))
+  linarith [hmin m hm]
+
+/-- exact arithmetic is an instance: the rounded lookup then *is* the lookup of
+`gridNodeNumber_spec` -/
+theorem gridNodeNumber_rounded_exact (x : Nat → Nat → ℝ) (q : Nat → ℝ) (d N : Nat) :
+    rGridNodeNumber (fun v => v) Real.sqrt x q d N = gridNodeNumber Real.sqrt x q d N := rfl
+
+/-- non-vacuity: in exact arithmetic with `u = w = 0` the theorem returns the exact statement
+for the grid `{0, 3, 1}` on the line and the query point `1.2` -/
+example : ∀ k, rGridNodeNumber (fun v => v) Real.sqrt (fun _ i => if i = 0 then 0 else if i = 1 then 3 else 1)
+      (fun _ => 6 / 5) 1 3 = some k →
+    k < 3 ∧ ∀ m < 3, (1 - 0) * √((1 - 0) ^ (1 + 3)) *
+        dist (pt (fun _ i => if i = 0 then (0 : ℝ) else if i = 1 then 3 else 1) 1 k) (qpt (fun _ => 6 / 5) 1)
+      ≤ (1 + 0) * √((1 + 0) ^ (1 + 3)) *
+        dist (pt (fun _ i => if i = 0 then (0 : ℝ) else if i = 1 then 3 else 1) 1 m) (qpt (fun _ => 6 / 5) 1) :=
+  fun k hk => gridNodeNumber_rounded (u := 0) (w := 0) ⟨le_refl _, by norm_num, fun v => by simp⟩
+    Real.sqrt (le_refl _) (by norm_num) (fun v _ => by simp) _ _ 1 3 k hk
+
+/-! ### `GeoGrid.node_number` -/
+
+theorem rCosExpr_comm (rnd : ℝ → ℝ) (sl cl sn cn : Nat → ℝ) (i j : Nat) :
+    rCosExpr rnd sl cl sn cn i j = rCosExpr rnd sl cl sn cn j i := by
+  rw [rCosExpr_eq, rCosExpr_eq, mul_comm (sl i), mul_comm (cl i), mul_comm (sn i), mul_comm (cn i)]
+
+/-- **`GeoGrid.node_number` in rounded arithmetic**: every `+`, `*` of the vectorised
+expression rounded (`u`), the nodes' and the query point's `sin` / `cos` values within `δ` of
+the functions at radian values that are within `εφ`, `εl` of the exact radians, an inverse
+cosine within `α` on `[-1, 1]`.  The node returned is nearest on the sphere up to twice the
+entry error of `angular_entry_error_rounded` plus `2α`. -/
+theorem geoNodeNumber_rounded {rnd : ℝ → ℝ} {u : ℝ} (h : StdRound rnd u) (ac : ℝ → ℝ)
+    (lat lon φ' l' sl cl sn cn : Nat → ℝ) (latq lonq φq lq slv clv snv cnv δ εφ εl α : ℝ)
+    (hδ : δ ≤ 1 / 16)
+    (hac : ∀ c, -1 ≤ c → c ≤ 1 → |ac c - Real.arccos c| ≤ α)
+    (hsl : ∀ i, |sl i - Real.sin (φ' i)| ≤ δ) (hcl : ∀ i, |cl i - Real.cos (φ' i)| ≤ δ)
+    (hsn : ∀ i, |sn i - Real.sin (l' i)| ≤ δ) (hcn : ∀ i, |cn i - Real.cos (l' i)| ≤ δ)
+    (hslv : |slv - Real.sin φq| ≤ δ) (hclv : |clv - Real.cos φq| ≤ δ)
+    (hsnv : |snv - Real.sin lq| ≤ δ) (hcnv : |cnv - Real.cos lq| ≤ δ)
+    (hφ : ∀ i, |φ' i - lat i * Real.pi / 180| ≤ εφ) (hl : ∀ i, |l' i - lon i * Real.pi / 180| ≤ εl)
+    (hφq : |φq - latq * Real.pi / 180| ≤ εφ) (hlq : |lq - lonq * Real.pi / 180| ≤ εl)
+    (N k : Nat) (hk : rGeoNodeNumber rnd ac sl cl sn cn slv clv snv cnv N = some k) :
+    k < N ∧ ∀ m < N,
+      angle (nodeVec lat lon k) (unitVec (latq * Real.pi / 180) (lonq * Real.pi / 180))
+        ≤ angle (nodeVec lat lon m) (unitVec (latq * Real.pi / 180) (lonq * Real.pi / 180))
+          + 2 * (Real.arccos (1 - (((1 + u) ^ 5 - 1) * (1 + 3 * δ) ^ 2 + (566 / 100 * δ + 11 * δ ^ 2)))
+            + 2 * (εφ + εl) + α) := by
+  set E := Real.arccos (1 - (((1 + u) ^ 5 - 1) * (1 + 3 * δ) ^ 2 + (566 / 100 * δ + 11 * δ ^ 2)))
+    + 2 * (εφ + εl) with hE
+  -- the query point as node `N` of the extended grid
+  have ext : ∀ (t : Nat → ℝ) (v : ℝ) (f : ℝ → ℝ) (a : Nat → ℝ) (b : ℝ),
+      (∀ i, |t i - f (a i)| ≤ δ) → |v - f b| ≤ δ →
+      ∀ i, |extTab N t v i - f (extTab N a b i)| ≤ δ := by
+    intro t v f a b h1 h2 i
+    unfold extTab
+    split
+    · exact h2
+    · exact h1 i
+  have ext' : ∀ (a : Nat → ℝ) (b : ℝ) (c : Nat → ℝ) (e ε : ℝ),
+      (∀ i, |a i - c i * Real.pi / 180| ≤ ε) → |b - e * Real.pi / 180| ≤ ε →
+      ∀ i, |extTab N a b i - extTab N c e i * Real.pi / 180| ≤ ε := by
+    intro a b c e ε h1 h2 i
+    unfold extTab
+    split
+    · exact h2
+    · exact h1 i
+  have key : ∀ i < N, |ac (clampMask (rGeoExpr rnd sl cl sn cn slv clv snv cnv i))
+      - angle (nodeVec lat lon i) (unitVec (latq * Real.pi / 180) (lonq * Real.pi / 180))|
+        ≤ E + α := by
+    intro i hi
+    have hne : i ≠ N := by omega
+    have hmain := angular_entry_error_rounded h (extTab N lat latq) (extTab N lon lonq)
+      (extTab N φ' φq) (extTab N l' lq) (extTab N sl slv) (extTab N cl clv) (extTab N sn snv)
+      (extTab N cn cnv) δ εφ εl hδ
+      (ext sl slv Real.sin φ' φq hsl hslv) (ext cl clv Real.cos φ' φq hcl hclv)
+      (ext sn snv Real.sin l' lq hsn hsnv) (ext cn cnv Real.cos l' lq hcn hcnv)
+      (ext' φ' φq lat latq εφ hφ hφq) (ext' l' lq lon lonq εl hl hlq)
+      (N + 1) i N (by omega) (by omega)
+    rw [rCosAngKernel_apply _ _ _ _ _ _ _ _ (by omega) (by omega),
+      Nat.max_eq_right hi.le, Nat.min_eq_left hi.le, rCosExpr_comm,
+      ← rGeoExpr_eq_rCosExpr rnd sl cl sn cn slv clv snv cnv N i hi,
+      angularDistance_eq_angle _ _ _ _ _ (by omega) (by omega)] at hmain
+    have e1 : nodeVec (extTab N lat latq) (extTab N lon lonq) i = nodeVec lat lon i := by
+      simp [nodeVec, extTab, hne]
+    have e2 : nodeVec (extTab N lat latq) (extTab N lon lonq) N
+        = unitVec (latq * Real.pi / 180) (lonq * Real.pi / 180) := by
+      simp [nodeVec, extTab]
+    rw [e1, e2] at hmain
+    rw [clampMask_eq_clamp]
+    have hc := clamp_mem (rGeoExpr rnd sl cl sn cn slv clv snv cnv i)
+    have ha := hac _ hc.1 hc.2
+    have := abs_sub_le (ac (clamp (rGeoExpr rnd sl cl sn cn slv clv snv cnv i)))
+      (Real.arccos (clamp (rGeoExpr rnd sl cl sn cn slv clv snv cnv i)))
+      (angle (nodeVec lat lon i) (unitVec (latq * Real.pi / 180) (lonq * Real.pi / 180)))
+    linarith
+  obtain ⟨v, hv, hmin, -⟩ := argminFirst_spec _ k hk
+  have hkN : k < N := by
+    by_contra hk'
+    rw [List.getElem?_eq_none (by simpa using Nat.le_of_not_lt hk')] at hv
+    cases hv
+  rw [List.getElem?_map, List.getElem?_range hkN] at hv
+  simp only [Option.map_some, Option.some.injEq] at hv
+  subst hv
+  refine ⟨hkN, fun m hm => ?_⟩
+  have h3 := hmin _ (List.mem_map.2 ⟨m, List.mem_range.2 hm, rfl⟩)
+  have h1 := abs_le.1 (key k hkN)
+  have h2 := abs_le.1 (key m hm)
+  linarith [h1.1, h1.2, h2.1, h2.2]
+
+/-- **float arithmetic of either width, tables within 1.5 units of 2⁻²⁴** (`u ≤ 2⁻²⁴` — the
+vectorised expression is evaluated in float64 when the query point is a Python float and in
+float32 for `np.float32` arguments; `δ ≤ 3·2⁻²⁵`, conversions within `2⁻¹⁷`, `arccos` within
+`2⁻²⁰`): the node returned is within `3·2⁻¹⁰ + 2⁻¹⁹` rad of the nearest one — the oracle's
+lookup slack is `2·2⁻¹⁰` (sampled), the statement's "up to the same error" read as twice the
+entry error. -/
+theorem geoNodeNumber_rounded_float32 {rnd : ℝ → ℝ} (h : StdRound rnd (2⁻¹ ^ 24)) (ac : ℝ → ℝ)
+    (lat lon φ' l' sl cl sn cn : Nat → ℝ) (latq lonq φq lq slv clv snv cnv δ εφ εl : ℝ)
+    (hδ : δ ≤ 3 * 2⁻¹ ^ 25) (hε : εφ + εl ≤ 2⁻¹ ^ 17)
+    (hac : ∀ c, -1 ≤ c → c ≤ 1 → |ac c - Real.arccos c| ≤ 2⁻¹ ^ 20)
+    (hsl : ∀ i, |sl i - Real.sin (φ' i)| ≤ δ) (hcl : ∀ i, |cl i - Real.cos (φ' i)| ≤ δ)
+    (hsn : ∀ i, |sn i - Real.sin (l' i)| ≤ δ) (hcn : ∀ i, |cn i - Real.cos (l' i)| ≤ δ)
+    (hslv : |slv - Real.sin φq| ≤ δ) (hclv : |clv - Real.cos φq| ≤ δ)
+    (hsnv : |snv - Real.sin lq| ≤ δ) (hcnv : |cnv - Real.cos lq| ≤ δ)
+    (hφ : ∀ i, |φ' i - lat i * Real.pi / 180| ≤ εφ) (hl : ∀ i, |l' i - lon i * Real.pi / 180| ≤ εl)
+    (hφq : |φq - latq * Real.pi / 180| ≤ εφ) (hlq : |lq - lonq * Real.pi / 180| ≤ εl)
+    (N k : Nat) (hk : rGeoNodeNumber rnd ac sl cl sn cn slv clv snv cnv N = some k) :
+    k < N ∧ ∀ m < N,
+      angle (nodeVec lat lon k) (unitVec (latq * Real.pi / 180) (lonq * Real.pi / 180))
+        < angle (nodeVec lat lon m) (unitVec (latq * Real.pi / 180) (lonq * Real.pi / 180))
+          + (3 * 2⁻¹ ^ 10 + 2⁻¹ ^ 19) := by
+  have hδ0 : 0 ≤ δ := le_trans (abs_nonneg _) hslv
+  obtain ⟨hkN, hmin⟩ := geoNodeNumber_rounded h ac lat lon φ' l' sl cl sn cn latq lonq φq lq
+    slv clv snv cnv δ εφ εl (2⁻¹ ^ 20) (le_trans hδ (by norm_num)) hac hsl hcl hsn hcn
+    hslv hclv hsnv hcnv hφ hl hφq hlq N k hk
+  refine ⟨hkN, fun m hm => ?_⟩
+  have hη : ((1 + (2⁻¹ : ℝ) ^ 24) ^ 5 - 1) * (1 + 3 * δ) ^ 2 + (566 / 100 * δ + 11 * δ ^ 2)
+      ≤ ((1 + (2⁻¹ : ℝ) ^ 24) ^ 5 - 1) * (1 + 3 * (3 * 2⁻¹ ^ 25)) ^ 2
+        + (566 / 100 * (3 * 2⁻¹ ^ 25) + 11 * (3 * 2⁻¹ ^ 25) ^ 2) := by
+    have : (0 : ℝ) ≤ (1 + 2⁻¹ ^ 24) ^ 5 - 1 := by norm_num
+    gcongr
+  have ht := arccos_one_sub_le_of_sq _ (3 * 2⁻¹ ^ 11 - 2⁻¹ ^ 15) (by norm_num) (by norm_num)
+    (le_trans hη (by norm_num))
+  have := hmin m hm
+  have e : (2 : ℝ) * (3 * 2⁻¹ ^ 11 - 2⁻¹ ^ 15 + 2 * 2⁻¹ ^ 17 + 2⁻¹ ^ 20)
+      < 3 * 2⁻¹ ^ 10 + 2⁻¹ ^ 19 := by norm_num
+  nlinarith [this, ht, hε, e]
+
+/-! ### first among identical nodes — for every rounding whatsoever -/
+
+/-- nodes with identical coordinates get the identical computed squared distance, whatever the
+arithmetic does -/
+theorem rqsumsq_congr (rnd : ℝ → ℝ) (x : Nat → Nat → ℝ) (q : Nat → ℝ) (d i j : Nat)
+    (hij : ∀ c < d, x c i = x c j) : rqsumsq rnd x q d i = rqsumsq rnd x q d j := by
+  unfold rqsumsq qsumsq
+  apply List.foldl_ext
+  intro acc c hc
+  rw [hij c (List.mem_range.1 hc)]
+
+/-- **`Grid.node_number`, any rounding** (no standard model, any square root): no node before
+the one returned has the same coordinates — among identical nodes the first is returned -/
+theorem gridNodeNumber_rounded_first (rnd sq : ℝ → ℝ) (x : Nat → Nat → ℝ) (q : Nat → ℝ)
+    (d N k : Nat) (hk : rGridNodeNumber rnd sq x q d N = some k) :
+    ∀ m < k, ¬ ∀ c < d, x c m = x c k := by
+  intro m hm hsame
+  obtain ⟨v, hv, -, hfirst⟩ := argminFirst_spec _ k hk
+  have hkN : k < N := by
+    by_contra hk'
+    rw [List.getElem?_eq_none (by simpa using Nat.le_of_not_lt hk')] at hv
+    cases hv
+  rw [List.getElem?_map, List.getElem?_range hkN] at hv
+  simp only [Option.map_some, Option.some.injEq] at hv
+  have := hfirst m hm (sq (rqsumsq rnd x q d m)) (by
+    rw [List.getElem?_map, List.getElem?_range (by omega)]; rfl)
+  rw [← hv, rqsumsq_congr rnd x q d m k hsame] at this
+  exact lt_irrefl _ this
+
+/-- **`GeoGrid.node_number`, any rounding, any `arccos`**: no node before the one returned has
+the same four table entries (in particular: the same stored latitude and longitude) -/
+theorem geoNodeNumber_rounded_first (rnd ac : ℝ → ℝ) (sl cl sn cn : Nat → ℝ)
+    (slv clv snv cnv : ℝ) (N k : Nat)
+    (hk : rGeoNodeNumber rnd ac sl cl sn cn slv clv snv cnv N = some k) :
+    ∀ m < k, ¬ (sl m = sl k ∧ cl m = cl k ∧ sn m = sn k ∧ cn m = cn k) := by
+  intro m hm hsame
+  obtain ⟨v, hv, -, hfirst⟩ := argminFirst_spec _ k hk
+  have hkN : k < N := by
+    by_contra hk'
+    rw [List.getElem?_eq_none (by simpa using Nat.le_of_not_lt hk')] at hv
+    cases hv
+  rw [List.getElem?_map, List.getElem?_range hkN] at hv
+  simp only [Option.map_some, Option.some.injEq] at hv
+  have := hfirst m hm (ac (clampMask (rGeoExpr rnd sl cl sn cn slv clv snv cnv m))) (by
+    rw [List.getElem?_map, List.getElem?_range (by omega)]; rfl)
+  have e : rGeoExpr rnd sl cl sn cn slv clv snv cnv m = rGeoExpr rnd sl cl sn cn slv clv snv cnv k := by
+    unfold rGeoExpr
+    rw [hsame.1, hsame.2.1, hsame.2.2.1, hsame.2.2.2]
+  rw [← hv, e] at this
+  exact lt_irrefl _ this
+
+/-- non-vacuity: two coincident nodes on the line, the first one is returned -/
+example : rGridNodeNumber (fun v => v) Real.sqrt (fun _ _ => 1) (fun _ => 0) 1 2 = some 0 := by
+  simp [rGridNodeNumber, rqsumsq, qsumsq, argminFirst, argminAux]
+
+/-! ### the radian conversion is no longer a hypothesis -/
+
+/-- **float32, correctly rounded tables, the conversion `x * np.pi / 180` as evaluated**
+(`|lat| ≤ 90°`, `|lon| ≤ 360°`): every entry of the distance matrix within `2⁻¹⁰` rad of the
+great-circle distance.  Compared with `angular_entry_accuracy_float32_cr` the two hypotheses
+on the radian values are gone: the tables are within `δ` of `sin` / `cos` *of the computed
+radians* `rRad rnd p (lat i)`, and `rRad_error_float32` bounds their distance from the exact
+ones (`90·2⁻²⁸ + 360·2⁻²⁸ < 2⁻¹⁹`). -/
+theorem angular_entry_accuracy_float32_rad {rnd : ℝ → ℝ} (h : StdRound rnd (2⁻¹ ^ 24))
+    (p : ℝ) (hp : |p - Real.pi| ≤ 2⁻¹ ^ 24 * Real.pi)
+    (lat lon sl cl sn cn : Nat → ℝ) (δ : ℝ) (hδ : δ ≤ 2⁻¹ ^ 25)
+    (hlat : ∀ i, |lat i| ≤ 90) (hlon : ∀ i, |lon i| ≤ 360)
+    (hsl : ∀ i, |sl i - Real.sin (rRad rnd p (lat i))| ≤ δ)
+    (hcl : ∀ i, |cl i - Real.cos (rRad rnd p (lat i))| ≤ δ)
+    (hsn : ∀ i, |sn i - Real.sin (rRad rnd p (lon i))| ≤ δ)
+    (hcn : ∀ i, |cn i - Real.cos (rRad rnd p (lon i))| ≤ δ)
+    (N a b : Nat) (ha : a < N) (hb : b < N) :
+    |Real.arccos (rCosAngKernel rnd sl cl sn cn N a b) - angularDistance realTrig lat lon N a b|
+      < 2⁻¹ ^ 10 :=
+  angular_entry_accuracy_float32_cr h lat lon (fun i => rRad rnd p (lat i))
+    (fun i => rRad rnd p (lon i)) sl cl sn cn δ (90 * 2⁻¹ ^ 28) (360 * 2⁻¹ ^ 28) hδ (by norm_num)
+    hsl hcl hsn hcn (fun i => rRad_error_float32 h p (lat i) hp 90 (hlat i))
+    (fun i => rRad_error_float32 h p (lon i) hp 360 (hlon i)) N a b ha hb
+
+/-- the same for numpy's actual tables (`δ ≤ 3·2⁻²⁵`) and longitudes up to ±1440°: `3·2⁻¹¹` -/
+theorem angular_entry_accuracy_float32_rad_wide {rnd : ℝ → ℝ} (h : StdRound rnd (2⁻¹ ^ 24))
+    (p : ℝ) (hp : |p - Real.pi| ≤ 2⁻¹ ^ 24 * Real.pi)
+    (lat lon sl cl sn cn : Nat → ℝ) (δ : ℝ) (hδ : δ ≤ 3 * 2⁻¹ ^ 25)
+    (hlat : ∀ i, |lat i| ≤ 90) (hlon : ∀ i, |lon i| ≤ 1440)
+    (hsl : ∀ i, |sl i - Real.sin (rRad rnd p (lat i))| ≤ δ)
+    (hcl : ∀ i, |cl i - Real.cos (rRad rnd p (lat i))| ≤ δ)
+    (hsn : ∀ i, |sn i - Real.sin (rRad rnd p (lon i))| ≤ δ)
+    (hcn : ∀ i, |cn i - Real.cos (rRad rnd p (lon i))| ≤ δ)
+    (N a b : Nat) (ha : a < N) (hb : b < N) :
+    |Real.arccos (rCosAngKernel rnd sl cl sn cn N a b) - angularDistance realTrig lat lon N a b|
+      < 3 * 2⁻¹ ^ 11 :=
+  angular_entry_accuracy_float32 h lat lon (fun i => rRad rnd p (lat i))
+    (fun i => rRad rnd p (lon i)) sl cl sn cn δ (90 * 2⁻¹ ^ 28) (1440 * 2⁻¹ ^ 28) hδ (by norm_num)
+    hsl hcl hsn hcn (fun i => rRad_error_float32 h p (lat i) hp 90 (hlat i))
+    (fun i => rRad_error_float32 h p (lon i) hp 1440 (hlon i)) N a b ha hb
+
+/-! ### the linear regime for the rounded kernel ("relative error near 2⁻²⁰ away from
+coincident and antipodal pairs") -/
+
+/-- **accuracy of the rounded kernel away from coincident and antipodal pairs**: if the
+returned angle lies in `[m, π - m]` and the great-circle distance in
+`[m + 2(εφ+εl), π - m - 2(εφ+εl)]`, the error is *linear* in the rounding errors:
+`≤ π / (2 sin m) · η + 2 (εφ + εl)` with the `η` of `angular_entry_error_rounded` — no
+square root of `η` as at the end points.  Around `π/2` this is `≈ 1.6·η ≈ 2⁻²⁰` for float32. -/
+theorem angular_entry_mid_error_rounded {rnd : ℝ → ℝ} {u : ℝ} (h : StdRound rnd u)
+    (lat lon φ' l' sl cl sn cn : Nat → ℝ) (δ εφ εl m : ℝ) (hδ : δ ≤ 1 / 16) (hm : 0 < m)
+    (hsl : ∀ i, |sl i - Real.sin (φ' i)| ≤ δ) (hcl : ∀ i, |cl i - Real.cos (φ' i)| ≤ δ)
+    (hsn : ∀ i, |sn i - Real.sin (l' i)| ≤ δ) (hcn : ∀ i, |cn i - Real.cos (l' i)| ≤ δ)
+    (hφ : ∀ i, |φ' i - lat i * Real.pi / 180| ≤ εφ) (hl : ∀ i, |l' i - lon i * Real.pi / 180| ≤ εl)
+    (N a b : Nat) (ha : a < N) (hb : b < N)
+    (h1 : m + 2 * (εφ + εl) ≤ angularDistance realTrig lat lon N a b)
+    (h2 : angularDistance realTrig lat lon N a b ≤ Real.pi - m - 2 * (εφ + εl))
+    (h3 : m ≤ Real.arccos (rCosAngKernel rnd sl cl sn cn N a b))
+    (h4 : Real.arccos (rCosAngKernel rnd sl cl sn cn N a b) ≤ Real.pi - m) :
+    |Real.arccos (rCosAngKernel rnd sl cl sn cn N a b) - angularDistance realTrig lat lon N a b|
+      ≤ Real.pi / (2 * Real.sin m)
+          * (((1 + u) ^ 5 - 1) * (1 + 3 * δ) ^ 2 + (566 / 100 * δ + 11 * δ ^ 2))
+        + 2 * (εφ + εl) := by
+  have key : ∀ i j, m + 2 * (εφ + εl) ≤ angle (nodeVec lat lon i) (nodeVec lat lon j) →
+      angle (nodeVec lat lon i) (nodeVec lat lon j) ≤ Real.pi - m - 2 * (εφ + εl) →
+      m ≤ Real.arccos (clamp (rCosExpr rnd sl cl sn cn i j)) →
+      Real.arccos (clamp (rCosExpr rnd sl cl sn cn i j)) ≤ Real.pi - m →
+      |Real.arccos (clamp (rCosExpr rnd sl cl sn cn i j))
+        - angle (nodeVec lat lon i) (nodeVec lat lon j)|
+      ≤ Real.pi / (2 * Real.sin m)
+          * (((1 + u) ^ 5 - 1) * (1 + 3 * δ) ^ 2 + (566 / 100 * δ + 11 * δ ^ 2))
+        + 2 * (εφ + εl) := by
+    intro i j g1 g2 g3 g4
+    have hc := rCosExpr_total_error h φ' l' sl cl sn cn δ hδ hsl hcl hsn hcn i j
+    set c'' := inner ℝ (unitVec (φ' i) (l' i)) (unitVec (φ' j) (l' j)) with hc''
+    have hmm : -1 ≤ c'' ∧ c'' ≤ 1 := by
+      have := abs_real_inner_le_norm (unitVec (φ' i) (l' i)) (unitVec (φ' j) (l' j))
+      simp only [norm_unitVec, mul_one] at this
+      exact abs_le.1 this
+    have hcl' := clamp_mem (rCosExpr rnd sl cl sn cn i j)
+    have hp := angle_perturb (nodeVec lat lon i) (nodeVec lat lon j)
+      (unitVec (φ' i) (l' i)) (unitVec (φ' j) (l' j))
+    have hk : ∀ k, angle (nodeVec lat lon k) (unitVec (φ' k) (l' k)) ≤ εφ + εl := by
+      intro k
+      refine le_trans (angle_unitVec_le _ _ _ _) ?_
+      linarith [hφ k, hl k, abs_sub_comm (φ' k) (lat k * Real.pi / 180),
+        abs_sub_comm (l' k) (lon k * Real.pi / 180)]
+    have hpert : |angle (unitVec (φ' i) (l' i)) (unitVec (φ' j) (l' j))
+        - angle (nodeVec lat lon i) (nodeVec lat lon j)| ≤ 2 * (εφ + εl) := by
+      linarith [hk i, hk j]
+    have hpa := abs_le.1 hpert
+    rw [angle_unitVec, ← hc''] at hpert hpa
+    have hs : 0 < Real.sin m :=
+      Real.sin_pos_of_pos_of_lt_pi hm (by linarith [Real.arccos_nonneg (clamp (rCosExpr rnd sl cl sn cn i j))])
+    have hmid := arccos_sub_le_mid _ _ m hcl'.1 hcl'.2 hmm.1 hmm.2 hm g3 g4
+      (by linarith [hpa.1]) (by linarith [hpa.2])
+    have hle : Real.pi / (2 * Real.sin m) * |clamp (rCosExpr rnd sl cl sn cn i j) - c''|
+        ≤ Real.pi / (2 * Real.sin m)
+          * (((1 + u) ^ 5 - 1) * (1 + 3 * δ) ^ 2 + (566 / 100 * δ + 11 * δ ^ 2)) :=
+      mul_le_mul_of_nonneg_left (le_trans (clamp_close _ c'' hmm.1 hmm.2) hc)
+        (div_nonneg Real.pi_pos.le (by linarith))
+    have := abs_sub_le (Real.arccos (clamp (rCosExpr rnd sl cl sn cn i j))) (Real.arccos c'')
+      (angle (nodeVec lat lon i) (nodeVec lat lon j))
+    linarith
+  rw [rCosAngKernel_apply rnd sl cl sn cn N a b ha hb] at h3 h4 ⊢
+  rw [angularDistance_eq_angle lat lon N a b ha hb] at h1 h2 ⊢
+  rcases Nat.le_total a b with hab | hab
+  · rw [Nat.max_eq_right hab, Nat.min_eq_left hab] at h3 h4 ⊢
+    rw [angle_comm] at h1 h2 ⊢
+    exact key b a h1 h2 h3 h4
+  · rw [Nat.max_eq_left hab, Nat.min_eq_right hab] at h3 h4 ⊢
+    exact key a b h1 h2 h3 h4
+
+/-- **float32, numpy's tables (`δ ≤ 3·2⁻²⁵`), the conversion as evaluated, `|lat| ≤ 90°`,
+`|lon| ≤ 360°`, angles between 0.25 and π − 0.25** (the oracle's middle range): every such
+entry is within `2⁻¹⁶` rad of the great-circle distance — 64 times better than the `2⁻¹⁰` that
+holds everywhere. -/
+theorem angular_entry_mid_accuracy_float32 {rnd : ℝ → ℝ} (h : StdRound rnd (2⁻¹ ^ 24))
+    (p : ℝ) (hp : |p - Real.pi| ≤ 2⁻¹ ^ 24 * Real.pi)
+    (lat lon sl cl sn cn : Nat → ℝ) (δ : ℝ) (hδ : δ ≤ 3 * 2⁻¹ ^ 25)
+    (hlat : ∀ i, |lat i| ≤ 90) (hlon : ∀ i, |lon i| ≤ 360)
+    (hsl : ∀ i, |sl i - Real.sin (rRad rnd p (lat i))| ≤ δ)
+    (hcl : ∀ i, |cl i - Real.cos (rRad rnd p (lat i))| ≤ δ)
+    (hsn : ∀ i, |sn i - Real.sin (rRad rnd p (lon i))| ≤ δ)
+    (hcn : ∀ i, |cn i - Real.cos (rRad rnd p (lon i))| ≤ δ)
+    (N a b : Nat) (ha : a < N) (hb : b < N)
+    (h1 : 1 / 4 + 2⁻¹ ^ 18 ≤ angularDistance realTrig lat lon N a b)
+    (h2 : angularDistance realTrig lat lon N a b ≤ Real.pi - 1 / 4 - 2⁻¹ ^ 18)
+    (h3 : 1 / 4 ≤ Real.arccos (rCosAngKernel rnd sl cl sn cn N a b))
+    (h4 : Real.arccos (rCosAngKernel rnd sl cl sn cn N a b) ≤ Real.pi - 1 / 4) :
+    |Real.arccos (rCosAngKernel rnd sl cl sn cn N a b) - angularDistance realTrig lat lon N a b|
+      < 2⁻¹ ^ 16 := by
+  have hδ0 : 0 ≤ δ := le_trans (abs_nonneg _) (hsl 0)
+  have hε : (2 : ℝ) * (90 * 2⁻¹ ^ 28 + 360 * 2⁻¹ ^ 28) ≤ 2⁻¹ ^ 18 := by norm_num
+  have hmain := angular_entry_mid_error_rounded h lat lon (fun i => rRad rnd p (lat i))
+    (fun i => rRad rnd p (lon i)) sl cl sn cn δ (90 * 2⁻¹ ^ 28) (360 * 2⁻¹ ^ 28) (1 / 4)
+    (le_trans hδ (by norm_num)) (by norm_num) hsl hcl hsn hcn
+    (fun i => rRad_error_float32 h p (lat i) hp 90 (hlat i))
+    (fun i => rRad_error_float32 h p (lon i) hp 360 (hlon i)) N a b ha hb
+    (by linarith) (by linarith) h3 h4
+  have hη : ((1 + (2⁻¹ : ℝ) ^ 24) ^ 5 - 1) * (1 + 3 * δ) ^ 2 + (566 / 100 * δ + 11 * δ ^ 2)
+      ≤ ((1 + (2⁻¹ : ℝ) ^ 24) ^ 5 - 1) * (1 + 3 * (3 * 2⁻¹ ^ 25)) ^ 2
+        + (566 / 100 * (3 * 2⁻¹ ^ 25) + 11 * (3 * 2⁻¹ ^ 25) ^ 2) := by
+    have : (0 : ℝ) ≤ (1 + 2⁻¹ ^ 24) ^ 5 - 1 := by norm_num
+    gcongr
+  have hη0 : (0 : ℝ) ≤ ((1 + (2⁻¹ : ℝ) ^ 24) ^ 5 - 1) * (1 + 3 * δ) ^ 2
+      + (566 / 100 * δ + 11 * δ ^ 2) := by
+    have : (0 : ℝ) ≤ (1 + 2⁻¹ ^ 24) ^ 5 - 1 := by norm_num
+    positivity
+  -- `π / (2 sin (1/4)) ≤ 13/2`
+  have hs : (246 / 1000 : ℝ) < Real.sin (1 / 4) := by
+    have := Real.sin_gt_sub_cube (x := 1 / 4) (by norm_num)
+    norm_num at this ⊢
+    linarith
+  have hL : Real.pi / (2 * Real.sin (1 / 4)) ≤ 13 / 2 := by
+    rw [div_le_iff₀ (by linarith)]
+    linarith [Real.pi_lt_d2]
+  have hprod : Real.pi / (2 * Real.sin (1 / 4))
+      * (((1 + (2⁻¹ : ℝ) ^ 24) ^ 5 - 1) * (1 + 3 * δ) ^ 2 + (566 / 100 * δ + 11 * δ ^ 2))
+      ≤ 13 / 2 * (((1 + (2⁻¹ : ℝ) ^ 24) ^ 5 - 1) * (1 + 3 * (3 * 2⁻¹ ^ 25)) ^ 2
+        + (566 / 100 * (3 * 2⁻¹ ^ 25) + 11 * (3 * 2⁻¹ ^ 25) ^ 2)) :=
+    mul_le_mul hL hη hη0 (by norm_num)
+  have hnum : (13 / 2 : ℝ) * (((1 + (2⁻¹ : ℝ) ^ 24) ^ 5 - 1) * (1 + 3 * (3 * 2⁻¹ ^ 25)) ^ 2
+        + (566 / 100 * (3 * 2⁻¹ ^ 25) + 11 * (3 * 2⁻¹ ^ 25) ^ 2))
+      + 2 * (90 * 2⁻¹ ^ 28 + 360 * 2⁻¹ ^ 28) < 2⁻¹ ^ 16 := by norm_num
+  linarith
+
+/-- non-vacuity of the linear regime: the north pole and a point of the equator in exact
+arithmetic with exact tables (`u = δ = ε = 0`, `m = 1/4`); their distance is `π/2` -/
+example :
+    |Real.arccos (rCosAngKernel (fun v => v)
+        (fun i => Real.sin ((if i = 0 then 90 else 0 : ℝ) * Real.pi / 180))
+        (fun i => Real.cos ((if i = 0 then 90 else 0 : ℝ) * Real.pi / 180))
+        (fun _ => Real.sin ((0 : ℝ) * Real.pi / 180)) (fun _ => Real.cos ((0 : ℝ) * Real.pi / 180)) 2 0 1)
+      - angularDistance realTrig (fun i => if i = 0 then 90 else 0) (fun _ => 0) 2 0 1|
+      ≤ Real.pi / (2 * Real.sin (1 / 4))
+          * (((1 + 0) ^ 5 - 1) * (1 + 3 * 0) ^ 2 + (566 / 100 * 0 + 11 * 0 ^ 2)) + 2 * (0 + 0) := by
+  have hD : angularDistance realTrig (fun i => if i = 0 then (90 : ℝ) else 0) (fun _ => 0) 2 0 1
+      = Real.pi / 2 := by
+    have hc := cos_angularDistance (fun i => if i = 0 then (90 : ℝ) else 0) (fun _ => 0) 2 0 1
+      (by omega) (by omega)
+    have e : (90 : ℝ) * Real.pi / 180 = Real.pi / 2 := by ring
+    simp [e] at hc
+    have hr := angularDistance_range (fun i => if i = 0 then (90 : ℝ) else 0) (fun _ => 0) 2 0 1
+    rw [← Real.arccos_cos hr.1 hr.2, hc, Real.arccos_zero]
+  have hK : Real.arccos (rCosAngKernel (fun v => v)
+        (fun i => Real.sin ((if i = 0 then 90 else 0 : ℝ) * Real.pi / 180))
+        (fun i => Real.cos ((if i = 0 then 90 else 0 : ℝ) * Real.pi / 180))
+        (fun _ => Real.sin ((0 : ℝ) * Real.pi / 180)) (fun _ => Real.cos ((0 : ℝ) * Real.pi / 180)) 2 0 1)
+      = angularDistance realTrig (fun i => if i = 0 then 90 else 0) (fun _ => 0) 2 0 1 := rfl
+  have hpi := Real.pi_gt_three
+  have hpi' := Real.pi_le_four
+  exact angular_entry_mid_error_rounded (u := 0) ⟨le_refl _, by norm_num, fun v => by simp⟩
+    (fun i => if i = 0 then 90 else 0) (fun _ => 0)
+    (fun i => (if i = 0 then 90 else 0 : ℝ) * Real.pi / 180) (fun _ => (0 : ℝ) * Real.pi / 180)
+    _ _ _ _ 0 0 0 (1 / 4) (by norm_num) (by norm_num) (by simp) (by simp) (by simp) (by simp)
+    (by simp) (by simp) 2 0 1 (by omega) (by omega)
+    (by rw [hD]; linarith) (by rw [hD]; linarith) (by rw [hK, hD]; linarith)
+    (by rw [hK, hD]; linarith)
+
+/-- non-vacuity of the conversion bound: exact arithmetic with the exact constant -/
+example : |rRad (fun v => v) Real.pi 360 - 360 * Real.pi / 180| ≤ 360 * (2⁻¹ : ℝ) ^ 28 :=
+  rRad_error_float32 ⟨by norm_num, by norm_num, fun v => by simp⟩ Real.pi 360
+    (by simp; positivity) 360 (by norm_num)
+
 /-! ## tie to the source: the definitions regenerated from the working tree
 
 `translate/gen_C12.py` re-reads `numerics.pyx`, `geo_grid.py`, `grid.py` and
@@ -1899,6 +2415,44 @@ theorem src_cwd :
         "self.inarea_weighted_connectivity()"),
       ("outtotal_link_distance", "self.outaverage_link_distance(geometry_corrected)",
         "self.outarea_weighted_connectivity()")] := by decide
+
+/-! ### round 5 — the tie in *rounded* arithmetic
+
+The generated definitions are polymorphic in the operations, so they can be instantiated with
+the rounding operations of `Lemmas/GeoRound*.lean`: the order in which the **source** applies
+its operations (which is what a rounding analysis is about) is the order the theorems
+`gridNodeNumber_rounded`, `geoNodeNumber_rounded`, `rRad_error` analyse.  Commuted operands
+(`a*b` / `b*a`, `a+b` / `b+a`) round identically and are accepted. -/
+
+set_option linter.unreachableTactic false
+set_option linter.unusedTactic false
+
+/-- `x * np.pi / 180` as written in `cos_lat` … `sin_lon`, product and quotient rounded -/
+theorem src_rRad (rnd : ℝ → ℝ) (p x : ℝ) :
+    @StructC12.rad ℝ ⟨fun a b => rnd (a * b)⟩ ⟨fun a b => rnd (a / b)⟩ _ x p = rRad rnd p x := by
+  first
+    | rfl
+    | (simp only [StructC12.rad, rRad, rMul_eq, rDiv_eq]; simp only [mul_comm])
+
+/-- element `i` of the vectorised expression of `GeoGrid.node_number`, `+` and `*` rounded -/
+theorem src_rGeoExpr (rnd : ℝ → ℝ) (sl cl sn cn : Nat → ℝ) (slv clv snv cnv : ℝ) (i : Nat) :
+    @StructC12.nnExpr ℝ ⟨fun a b => rnd (a + b)⟩ _ ⟨fun a b => rnd (a * b)⟩ _ _ _
+      cl sl cn sn slv clv snv cnv i = rGeoExpr rnd sl cl sn cn slv clv snv cnv i := by
+  first
+    | rfl
+    | (simp only [StructC12.nnExpr, rGeoExpr, rMul_eq, rAdd_eq]
+       simp only [mul_comm, add_comm])
+
+/-- the accumulation of `Grid.node_number` (`diff = space.T - x`, `diff**2`, `np.sum(axis=1)`),
+every `-`, `*`, `+` rounded -/
+theorem src_rGridNodeNumber (rnd : ℝ → ℝ) (x : Nat → Nat → ℝ) (q : Nat → ℝ) (d i : Nat) :
+    (List.range d).foldl (fun acc k => rnd (acc +
+      @StructC12.gridSq ℝ _ ⟨fun a b => rnd (a - b)⟩ ⟨fun a b => rnd (a * b)⟩ _ _ _ x q k i)) 0
+      = rqsumsq rnd x q d i := by
+  first
+    | rfl
+    | (simp only [StructC12.gridSq, rqsumsq, qsumsq, rMul_eq, rAdd_eq, rSub_eq]
+       simp only [mul_comm, add_comm])
 
 end SourceTie
 
